@@ -129,3 +129,127 @@ def tie_H(res, client, runs, hang_is_violation=True, label=None, exe=None):
     res.cov.setdefault("per_variant", {}).update({label + ":" + k: v for k, v in per_variant.items()})
     res.cov["disagreements_checked"] = res.cov.get("disagreements_checked", 0) + total
     return total
+
+
+# ---------------------------------------------------------------- T + D (pure functions)
+
+import subprocess
+import sys as _sys
+_sys.path.insert(0, os.path.dirname(os.path.abspath(__file__)))
+
+
+def regenerate(res):
+    """Tie T: regenerate CdsVerif/Gen from /repo's current headers.  A function that can no longer be
+    translated is a violation without failing input (the property is no longer shown)."""
+    import cxx2lean
+    man, errors, changed = cxx2lean.generate(vlib.REPO, vlib.LEAN)
+    res.cov["translated_functions"] = len(man)
+    res.cov["translation_changed_since_last_run"] = bool(changed)
+    for e in errors:
+        res.violation("translation:" + str(e.get("function") or e.get("unit")),
+                      {"kind": "translation-broken", "detail": e}, no_input=True)
+    return man, errors
+
+
+def build_pure(name, sources, with_libcds=False, extra=()):
+    """Plain (uninstrumented) build of a differential driver against /repo's headers."""
+    import glob
+    srcs = [os.path.join(vlib.HARNESS, "pure", s) for s in sources]
+    if with_libcds:
+        srcs += sorted(glob.glob(os.path.join(vlib.REPO, "src", "*.cpp")))
+        extra = list(extra) + ["-fno-access-control", "-mcx16", "-lboost_thread", "-lboost_system", "-pthread"]
+    key = vlib.files_hash(srcs) + vlib.repo_tree_hash()
+    exe = os.path.join(vlib.BIN, "%s-%s" % (name, key[:24]))
+    if not os.path.exists(exe):
+        os.makedirs(vlib.BIN, exist_ok=True)
+        rc, o, e = vlib.sh(["g++", "-std=gnu++11", "-O1", "-g", "-DNDEBUG", "-w", "-I" + vlib.REPO] + srcs + ["-o", exe] + list(extra), timeout=900)
+        if rc != 0:
+            raise RuntimeError("compile %s failed:\n%s" % (name, e[-3000:]))
+    return exe
+
+
+def tie_D(res, exe, args, driver_cmd, compare, label, timeout=600):
+    """Differential evaluation: the C++ driver prints `<input> -> <outputs>`; the Lean definitions are
+    evaluated on the same inputs; `compare(input, impl_out, model_out)` returns None or a mismatch text."""
+    rc, out, err = vlib.sh([exe] + args, timeout=timeout)
+    if rc != 0:
+        res.violation("%s:driver-crash" % label, {"kind": "crash", "cmd": [exe] + args, "stderr": err[-2000:]})
+        return []
+    lines = [l for l in out.split("\n") if " -> " in l or l.endswith(" ->")]
+    inputs = "\n".join(l.split(" ->")[0] for l in lines) + "\n"
+    mout = vlib.driver(driver_cmd, inputs).split("\n")
+    n = 0
+    distinct = set()
+    rows = []
+    for l, m in zip(lines, mout):
+        inp, _, impl = l.partition(" ->")
+        n += 1
+        distinct.add(inp)
+        rows.append((inp, impl.split(), m.split()))
+        bad = compare(inp, impl.split(), m.split())
+        if bad:
+            fn = inp.split()[0]
+            res.violation("%s:model-vs-impl:%s" % (label, fn),
+                          {"kind": "pure-input", "function": fn, "input": inp, "impl": impl.strip(), "model": m, "why": bad})
+    if len(mout) - 1 < len(lines) and not (len(mout) == len(lines)):
+        res.violation("%s:driver-short-output" % label, {"kind": "driver-problem", "lines": len(lines), "model_lines": len(mout)}, no_input=True)
+    res.add("evaluations", n)
+    res.add("programs", n)
+    res.add("disagreements_checked", n)
+    res.cov["distinct_nontrivial"] = res.cov.get("distinct_nontrivial", 0) + len(distinct)
+    if rows:
+        for r in rows[:: max(1, len(rows) // 3)][:3]:
+            res.sample({"input": r[0][:160], "impl": " ".join(r[1])[:160], "model": " ".join(r[2])[:160]})
+    return rows
+
+
+def tie_A(res, client, model, runs, label=None):
+    """Atomic-trace conformance: the Lean machine `model` must accept, step by step, the atomic operations
+    the real code performed (cdsdriver replay <model>)."""
+    exe = vlib.build_client(client)
+    label = label or (client + ":" + model)
+    total = 0
+    steps_total = 0
+    hashes = set()
+    nontrivial = set()
+    for run in runs:
+        args = ["--seed", str(res.seed), "--trace", "1"] + run["args"]
+        text, aborted = vlib.run_cases(exe, args, run["cases"], timeout=run.get("timeout", 600))
+        verdicts = vlib.driver(["replay", model], text)
+        vmap = {}
+        for line in verdicts.split("\n"):
+            w = line.split(None, 2)
+            if len(w) >= 2:
+                vmap[w[1]] = (w[0], w[2] if len(w) > 2 else "")
+        for cid, block in vlib.split_cases(text):
+            total += 1
+            end = parse_end(block)
+            hdr = header_of(block)
+            var = hdr.get("variant", "?")
+            h = (var, end.get("hash"))
+            hashes.add(h)
+            if int(end.get("cas_fail", "0")) + int(end.get("yields", "0")) > 0:
+                nontrivial.add(h)
+            v = vmap.get(cid, ("MISSING", ""))
+            replay = {"kind": "model-divergence", "client": client, "model": model, "args": run["args"], "case": cid,
+                      "variant": var, "schedule": sched_of(block), "first_divergence": v[1], "block": block[:20000]}
+            if end.get("status") != "ok":
+                res.violation("%s:%s:hang:%s" % (label, var, end.get("status")), dict(replay, kind="hang"))
+                continue
+            if v[0] == "OK":
+                m = re.search(r"steps=(\d+)", v[1])
+                steps_total += int(m.group(1)) if m else 0
+            else:
+                # a divergence between model and code: the property is no longer shown by the theorem; the
+                # history/oracle ties of the same check decide whether a failing input exists
+                sig = re.sub(r"line=\d+", "", v[1])[:80]
+                res.violation("%s:%s:diverge" % (label, var), replay, no_input=True)
+            if total % 499 == 1:
+                tl = [l for l in block.split("\n") if l.startswith("T ")]
+                res.sample({"client": client, "model": model, "variant": var, "trace_excerpt": tl[:14]})
+    res.add("evaluations", total)
+    res.add("traces_validated_against_impl", total)
+    res.add("model_steps_matched", steps_total)
+    res.cov["distinct_nontrivial"] = res.cov.get("distinct_nontrivial", 0) + len(nontrivial)
+    res.cov["distinct_traces"] = res.cov.get("distinct_traces", 0) + len(hashes)
+    return total
